@@ -339,7 +339,7 @@ Fixpoint handles_tinstr (tbl : list (option nid)) (t : tinstr) : tinstr :=
   let so (o : operand) : operand :=
     match o with
     | OOuter h => OOuter (default 0%nat (mjoin (tbl !! h)))
-    | OLocal d i => o
+    | _ => o
     end in
   match t with
   | TConst v => TConst v
@@ -362,7 +362,7 @@ with handles_bindfn (tbl : list (option nid)) (f : bindfn) : bindfn :=
                           ((fix gob (b : list tinstr) := match b with [] => [] | t :: b' => handles_tinstr tbl t :: gob b' end) body,
                            match r with
                            | OOuter h => OOuter (default 0%nat (mjoin (tbl !! h)))
-                           | OLocal d i => r
+                           | _ => r
                            end) :: go ts'
                       end) ts)
   end.
